@@ -3,6 +3,7 @@
 import functools
 import pickle
 
+from .. import _verif
 from .errors import CachingError
 
 
@@ -26,6 +27,8 @@ def get_from_cache(obj, name, *args, **kwargs):
 
 def pop_from_cache(obj, name, *args, **kwargs):
     """Pop an item from the cache (honoring calling args)."""
+    if _verif.ON:
+        _verif.cache_event("c_pop", obj, name)
     try:
         return obj._memoize_cache.pop((name, args, pickle.dumps(kwargs)))
     except (KeyError, AttributeError):
@@ -34,6 +37,8 @@ def pop_from_cache(obj, name, *args, **kwargs):
 
 def pop_from_cache_ignore_args(obj, name):
     """Pop an item from the cache (honoring calling args)."""
+    if _verif.ON:
+        _verif.cache_event("c_pop", obj, name)
     try:
         return obj._memoize_cache.pop(name)
     except (KeyError, AttributeError):
@@ -42,6 +47,8 @@ def pop_from_cache_ignore_args(obj, name):
 
 def clear_cache_hook(module, *args, **kwargs):
     module._memoize_cache = {}
+    if _verif.ON:
+        _verif.cache_event("c_clear", module, "*")
 
 
 def _cached(method=None, name=None):
@@ -84,12 +91,16 @@ def _add_to_cache(obj, name, val, *args, kwargs_pkl):
     if not hasattr(obj, "_memoize_cache"):
         obj._memoize_cache = {}
     obj._memoize_cache[(name, args, kwargs_pkl)] = val
+    if _verif.ON:
+        _verif.cache_event("c_fill", obj, name)
     return val
 
 
 def _get_from_cache(obj, name, *args, kwargs_pkl):
     """Get an item from the cache (honoring calling args)."""
     try:
+        if _verif.ON and (name, args, kwargs_pkl) in obj._memoize_cache:
+            _verif.cache_event("c_hit", obj, name)
         return obj._memoize_cache[(name, args, kwargs_pkl)]
     except (AttributeError, KeyError):
         raise CachingError("Object does not have item {} stored in cache.".format(name))
@@ -104,12 +115,16 @@ def _add_to_cache_ignore_args(obj, name, val):
     if not hasattr(obj, "_memoize_cache"):
         obj._memoize_cache = {}
     obj._memoize_cache[name] = val
+    if _verif.ON:
+        _verif.cache_event("c_fill", obj, name)
     return val
 
 
 def _get_from_cache_ignore_args(obj, name):
     """Get an item from the cache (ignoring calling args)."""
     try:
+        if _verif.ON and name in obj._memoize_cache:
+            _verif.cache_event("c_hit", obj, name)
         return obj._memoize_cache[name]
     except (AttributeError, KeyError):
         raise CachingError("Object does not have item {} stored in cache.".format(name))
